@@ -56,9 +56,12 @@ pub fn run(args: &[String]) -> i32 {
     std::fs::create_dir_all(&work).expect("work dir");
     let mut o = Out::create(arg(args, "--out").expect("--out"));
     crate::ctrlauth::install_panic_hook();
-    let mut rng = StdRng::seed_from_u64(seed ^ 0xc17_e9);
+    // (every run builds an endpoint fixture that leaves threads behind: the driver runs this in chunks, `--offset`
+    // being the index of the chunk's first run)
+    let offset = arg_u64(args, "--offset", 0) as usize;
+    let mut rng = StdRng::seed_from_u64(seed ^ 0xc17_e9 ^ (offset as u64).wrapping_mul(0x9e37_79b9));
     let production = arg(args, "--mode") == Some("production");
-    for k in 0..runs {
+    for k in offset..offset + runs {
         match if production { one_run_production(&mut rng, k, &work) } else { one_run(&mut rng, k, &work) } {
             Ok(evs) => {
                 for e in evs {
